@@ -821,16 +821,23 @@ func runMultiValue(r *vcoq.Rand, lossyFirst bool, n int, updatesOnly bool) (b, l
 // ever.  Runs alone (the hook is process-wide).  ok=false: the yield point was never reached
 // (hook removed or renamed), the scenario is then skipped.
 func runStalePublish() (run collRun, ok bool, err error) {
-	run = collRun{converged: true, pre: 1, scenario: "writer of ADD k0 parked at coll.publish; lossy seeded Pull opens; ADD k1 publishes; the parked ADD k0 publishes; Delete k0; then the subscriber starts receiving"}
+	run = collRun{converged: true, pre: 1, scenario: "writer of ADD k0 parked at coll.publish; lossy seeded Pull opens; ADD k1 commits (its publication waits its turn); k0 is released: ADD k0 (stale) then ADD k1 publish; Delete k0; then the subscriber starts receiving"}
 	c := resource.NewCollection()
 	var armed atomic.Bool
 	armed.Store(true)
 	parked, release := make(chan struct{}), make(chan struct{})
+	second := make(chan struct{})
+	var secondOnce sync.Once
 	verifhook.Set(func(point string) {
-		if point == "coll.publish" && armed.CompareAndSwap(true, false) {
+		if point != "coll.publish" {
+			return
+		}
+		if armed.CompareAndSwap(true, false) {
 			close(parked)
 			<-release
+			return
 		}
+		secondOnce.Do(func() { close(second) })
 	})
 	defer verifhook.Set(nil)
 	aDone := make(chan error, 1)
@@ -865,19 +872,33 @@ func runStalePublish() (run collRun, ok bool, err error) {
 		}
 		return true
 	}
-	okw := step(func() error { _, e := c.Add("k1", tok(2)); return e })
-	close(release)
-	if !okw {
-		cancel() // a writer stuck in bus.Send is released when the listener's context ends
-	}
+	// Add k1 commits while k0's publication is pending: since /repo 3d54e87 it waits its turn (publications
+	// leave in commit order), so it runs on its own goroutine; both must return once k0 is released
+	bDone := make(chan error, 1)
+	go func() { _, e := c.Add("k1", tok(2)); bDone <- e }()
+	okw := true
 	select {
-	case e := <-aDone:
-		if e != nil && err == nil {
-			err = e
-		}
+	case <-second: // k1 has committed
+	case e := <-bDone: // (a version without the turnstile publishes at once)
+		bDone <- e
 	case <-time.After(5 * time.Second):
-		run.slow, run.converged, okw = true, false, false
-		cancel()
+		okw = false
+	}
+	t0 := time.Now()
+	close(release)
+	for _, d := range []chan error{aDone, bDone} {
+		select {
+		case e := <-d:
+			if e != nil && err == nil {
+				err = e
+			}
+		case <-time.After(5 * time.Second):
+			run.slow, run.converged, okw = true, false, false
+			cancel() // a writer stuck in bus.Send is released when the listener's context ends
+		}
+	}
+	if dt := time.Since(t0); dt > maxWrite {
+		maxWrite = dt
 	}
 	if okw && err == nil {
 		okw = step(func() error { _, e := c.Delete("k0"); return e })
